@@ -547,6 +547,10 @@ class TemplateModel(object):
         out = self._read_array(path)
         out = np.atleast_2d(out)
         assert out.ndim == 2
+        if out.dtype.kind in 'iu':
+            # Coordinates enter distance computations: differences of unsigned integers wrap around
+            # and squares overflow small integer types.
+            out = out.astype(np.float64)
         return out
 
     def _load_channel_probes(self):
